@@ -157,18 +157,27 @@ def run_error_case(case):
             if ret and "pytree" in ret:
                 import impl_pytree
                 retv = impl_pytree.build_value(ret["value"])
-            src = "def fname(%s):\n    return RET\n" % ", ".join(list(ints) + order)
+            # optionally a parameter annotated with a class that is created afresh for every function but always has the same
+            # name and repr-able signature text (as a class defined inside a factory, or a re-run notebook cell, has)
+            lc = case.get("local_class")
+            allnames = list(ints) + (["cfg"] if lc == "first" else []) + order + (["cfg"] if lc == "last" else [])
+            Config = type("Config", (), {})
+            if lc:
+                vals["cfg"] = Config()
+            src = "def fname(%s):\n    return RET\n" % ", ".join(allnames)
             g = {"RET": retv}
             exec(src, g)
             f = g["fname"]
             f.__annotations__ = dict(ann)
             f.__annotations__.update({k: int for k in ints})
+            if lc:
+                f.__annotations__["cfg"] = Config
             if ret:
                 f.__annotations__["return"] = make_annotation(ret)
             fn = jaxtyped(typechecker=get_checker(var["checker"]))(f)
             r = {"outcome": "ok"}
             try:
-                fn(*[vals[n] for n in list(ints) + order])
+                fn(*[vals[n] for n in allnames])
             except AnnotationError as e:
                 r = {"outcome": "raise:AnnotationError", "is_typeerror": isinstance(e, TypeError)}
             except TypeCheckError as e:
